@@ -944,3 +944,39 @@ Proof.
   - apply (rm_conflict_intro _ 24 32 2 6 (RWrite 7) (RRead 7) 7); try reflexivity; [discriminate|left; reflexivity].
   - apply (rm_hb_chain _ 24 28 30 32 2 6 (RWrite 7) (RRel 8) (RAcq 8) (RRead 7) 8); try reflexivity; lia.
 Qed.
+
+(* ------------------------------------------------------------------------------------------------
+   The ants STEP model (D20): models/RaceAnts.v labels every step of ast_step (models/AntsSteps.v, the
+   machine the C07 stream "dispatch-steps" steps against the real pool) with its memory events:
+   allocation of the task = write of its result/err location, taskChan / innerCallbackChan / per-attempt
+   channel messages = release at the send, acquire at the matching receive, ctx cancel = release,
+   ctx.Done() observed = acquire, the dispatcher's stores and reads of result/err, wg.Done = release,
+   Get2 = acquire + read.
+
+   c18_ants_model_orig_race_refuted: the labelled run of the code before d4c0a4b (inner callback storing
+   result/err itself) on the late-write schedule has a happens-before race (the inner callback's write
+   against the dispatcher's writes and the Get2 caller's read).
+   c18_ants_model_witness_race_free: the SAME schedule on the fixed model has none, although it contains
+   conflicting accesses of three threads (c18_ants_model_witness_conflicts).
+   NOT proved: the general statement
+     c18_ants_model_race_free : forall n progs sched, ~ hb_race (ra_trace AstFixed n progs sched).
+   What is proved towards it (props/C07.v): a task is held by one thread at a time and only the holder's
+   store steps write its result/err (ants_steps_task_single_holder, ants_steps_only_dispatcher_writes), i.e.
+   the structural half; the monitor invariant (the holder knows the last write and all reads, the message /
+   the wait group carries them otherwise) is the same argument as c18_taskq_model_race_free and
+   c18_ants_task_protocol_race_free above, which covers the ants task protocol for any number of attempts
+   and late handlers on an abstract machine. *)
+From Got Require Import AntsSteps RaceAnts RaceAntsProofs.
+
+Theorem c18_ants_model_orig_race_refuted : hb_race (ra_trace AstOrig 1 ra_lw_progs ra_lw_sched).
+Proof. exact ra_orig_race. Qed.
+Print Assumptions c18_ants_model_orig_race_refuted.
+
+Theorem c18_ants_model_witness_race_free : ~ hb_race (ra_trace AstFixed 1 ra_lw_progs ra_lw_sched).
+Proof. exact ra_fixed_lw_no_race. Qed.
+Print Assumptions c18_ants_model_witness_race_free.
+
+Theorem c18_ants_model_witness_conflicts :
+  exists i j, hb_conflict (ra_trace AstFixed 1 ra_lw_progs ra_lw_sched) i j.
+Proof. exact ra_fixed_lw_conflicts. Qed.
+Print Assumptions c18_ants_model_witness_conflicts.
